@@ -113,6 +113,108 @@ pub fn family_inputs(path: &str, tag: &str) -> Vec<Input> {
         .collect()
 }
 
+/// TLC-enumerated control strings (Body.tla), concretised into a function body each.
+/// func 0 = the string (type ()->()), func 1 = a void helper (target of return_call); both exported.
+pub fn control_inputs(path: &str) -> Vec<Input> {
+    use wasm_encoder as we;
+    use wasm_encoder::Instruction as I;
+    let text = std::fs::read_to_string(path).expect("control string file");
+    let mut out = vec![];
+    for (k, l) in text.lines().enumerate() {
+        let l = l.trim();
+        if !l.starts_with('"') {
+            continue;
+        }
+        let inner: String = match serde_json::from_str(l) {
+            Ok(s) => s,
+            Err(_) => continue,
+        };
+        let Some(payload) = inner.strip_prefix("CASE ") else { continue };
+        let v: Value = serde_json::from_str(payload).unwrap();
+        let mut f = we::Function::new([]);
+        let mut desc = String::new();
+        for op in v.as_array().unwrap() {
+            let name = op[0].as_str().unwrap();
+            let labels: Vec<u32> = op[1].as_array().unwrap().iter().map(|x| x.as_u64().unwrap() as u32).collect();
+            desc.push_str(name);
+            for l in &labels {
+                desc.push_str(&format!("{}", l));
+            }
+            desc.push(' ');
+            let ins = match name {
+                "Const" => I::I32Const(7),
+                "Drop" => I::Drop,
+                "Nop" => I::Nop,
+                "Return" => I::Return,
+                "Unreachable" => I::Unreachable,
+                "ReturnCall" => I::ReturnCall(1),
+                "Block" => I::Block(we::BlockType::Empty),
+                "Loop" => I::Loop(we::BlockType::Empty),
+                "If" => I::If(we::BlockType::Empty),
+                "Else" => I::Else,
+                "End" => I::End,
+                "Br" => I::Br(labels[0]),
+                "BrIf" => I::BrIf(labels[0]),
+                "BrTable" => I::BrTable(labels[..labels.len() - 1].to_vec().into(), labels[labels.len() - 1]),
+                other => panic!("unknown control symbol {}", other),
+            };
+            f.instruction(&ins);
+        }
+        let mut m = we::Module::new();
+        let mut types = we::TypeSection::new();
+        types.function([], []);
+        m.section(&types);
+        let mut funcs = we::FunctionSection::new();
+        funcs.function(0);
+        funcs.function(0);
+        m.section(&funcs);
+        let mut exports = we::ExportSection::new();
+        exports.export("f", we::ExportKind::Func, 0);
+        exports.export("g", we::ExportKind::Func, 1);
+        m.section(&exports);
+        let mut code = we::CodeSection::new();
+        code.function(&f);
+        let mut g = we::Function::new([]);
+        g.instruction(&I::End);
+        code.function(&g);
+        m.section(&code);
+        out.push(Input { id: format!("ctl-{}", k), bytes: m.finish(), source: format!("ctl:{}", desc.trim()) });
+    }
+    out
+}
+
+/// The operator sweep: every instance of the operator table, once in an executed position and once
+/// after a terminator (dead code), inside the probe module.
+pub fn operator_inputs() -> Vec<Input> {
+    use crate::optable::{probe_module, reencode_plain, table, zero_of};
+    use wasm_encoder::Instruction as I;
+    let tab = table();
+    let mut out = vec![];
+    for (k, inst) in tab.insts.iter().enumerate() {
+        let Some(ins) = reencode_plain(&inst.op) else { continue };
+        let a = absmod::project_op(&inst.op, &absmod::OpCx { types: &[(vec![], vec![])] });
+        for dead in [false, true] {
+            let bytes = probe_module(&|f| {
+                if dead {
+                    f.instruction(&I::Unreachable);
+                }
+                for t in &inst.inputs {
+                    f.instruction(&zero_of(*t));
+                }
+                f.instruction(&ins);
+                if !inst.terminator {
+                    for _ in &inst.outputs {
+                        f.instruction(&I::Drop);
+                    }
+                }
+                f.instruction(&I::End);
+            });
+            out.push(Input { id: format!("op-{}-{}{}", k, inst.name, if dead { "-dead" } else { "" }), bytes, source: format!("op:{}:{}:{}", inst.name, a.imm, if dead { "dead" } else { "live" }) });
+        }
+    }
+    out
+}
+
 /// Resolve a comma separated list of input sources:
 ///   gen:<n>[:<profile>]  fam:<tag>:<path>  fixtures  file:<path>
 pub fn resolve_inputs(spec: &str, seed: u64) -> Vec<Input> {
@@ -126,6 +228,8 @@ pub fn resolve_inputs(spec: &str, seed: u64) -> Vec<Input> {
                 out.extend(generated_inputs(seed, n, &profile_opts(profile), profile));
             }
             "fam" => out.extend(family_inputs(f[2], f[1])),
+            "ctl" => out.extend(control_inputs(f[1])),
+            "ops" => out.extend(operator_inputs()),
             "fixtures" => out.extend(fixture_inputs().into_iter().filter(|i| absmod::validate(&i.bytes).is_ok())),
             "fixtures-all" => out.extend(fixture_inputs()),
             "file" => {
@@ -181,5 +285,121 @@ pub fn structure_case(inp: &Input, cfg: &Cfg) -> Value {
         "in_valid": absmod::validate(&inp.bytes).is_ok(),
         "out_valid": rt.outcome == "ok" && absmod::validate(&rt.out).is_ok(),
         "inm": inm, "outm": outm, "sigma": rt.sigma,
+    })
+}
+
+fn slim_op(o: &absmod::AbsOp) -> Value {
+    json!({"o": o.o, "imm": o.imm, "refs": o.refs, "local": o.local, "labels": o.labels, "bt": o.bt})
+}
+
+/// C03: per-function operator lists of input and output, with the renumbering.
+/// `base` = number of functions of the earlier lines of the trace (register numbering of Trace_Body.tla).
+pub fn bodies_case(inp: &Input, cfg: &Cfg, gc_runs: u32) -> Value {
+    let rt = run::roundtrip(&inp.bytes, cfg, gc_runs);
+    let inm = absmod::project(&inp.bytes).unwrap_or_default();
+    let outm = if rt.outcome == "ok" { absmod::project(&rt.out).unwrap_or_default() } else { AbsModule::default() };
+    let mut funcs = vec![];
+    for f in inm.funcs.iter().filter(|f| !f.imported) {
+        let fo = rt.sigma.func.get(f.idx as usize).copied().unwrap_or(-1);
+        if fo < 0 && gc_runs > 0 {
+            continue; // removed by the pass
+        }
+        let of = if fo >= 0 { outm.funcs.get(fo as usize) } else { None };
+        funcs.push(json!({
+            "fi": f.idx, "fo": fo, "nparams": f.nparams,
+            "inlocals": f.locals, "outlocals": of.map(|x| x.locals.clone()).unwrap_or_default(),
+            "inops": f.ops.iter().map(slim_op).collect::<Vec<_>>(),
+            "outops": of.map(|x| x.ops.iter().map(slim_op).collect::<Vec<_>>()).unwrap_or_default(),
+        }));
+    }
+    json!({
+        "id": inp.id, "source": inp.source, "outcome": rt.outcome,
+        "out_valid": rt.outcome == "ok" && absmod::validate(&rt.out).is_ok(),
+        "sigma": rt.sigma, "intypes": inm.types, "outtypes": outm.types, "funcs": funcs, "base": 0,
+    })
+}
+
+/// number the (case, function) pairs of a bodies trace
+pub fn assign_bases(lines: &mut [Value]) {
+    let mut base = 0usize;
+    for l in lines.iter_mut() {
+        let n = l["funcs"].as_array().map(|a| a.len()).unwrap_or(0);
+        l["base"] = json!(base);
+        base += n;
+    }
+}
+
+/// deterministic pseudo-random choice of extra GC roots for an input
+fn pick_roots(inp: &Input, inm: &AbsModule) -> Vec<(String, u32)> {
+    let h = u64::from_str_radix(&absmod::fnv(inp.id.as_bytes()), 16).unwrap_or(0);
+    let mut out = vec![];
+    if h % 3 != 0 {
+        return out; // two thirds of the cases have no custom roots
+    }
+    let spaces: [(&str, usize); 4] = [("func", inm.funcs.len()), ("table", inm.tables.len()), ("memory", inm.memories.len()), ("global", inm.globals.len())];
+    let mut x = h / 3;
+    for (sp, n) in spaces {
+        if n > 0 && x % 2 == 0 {
+            out.push((sp.to_string(), ((x / 2) % n as u64) as u32));
+        }
+        x /= 7;
+    }
+    out
+}
+
+/// Diagnosis aid for one known finding: functions named by a live `ref.func` whose only declaration
+/// (export, global initialiser, element segment) is a passive element segment.
+pub fn declared_only_by_passive(m: &AbsModule) -> Vec<u32> {
+    let mut reffed: Vec<u32> = vec![];
+    for f in &m.funcs {
+        let live = absmod::liveness(&f.ops);
+        for (op, l) in f.ops.iter().zip(live.iter()) {
+            if *l && op.o == "RefFunc" {
+                for r in &op.refs {
+                    if r.0 == "func" && !reffed.contains(&r.1) {
+                        reffed.push(r.1);
+                    }
+                }
+            }
+        }
+    }
+    let in_items = |e: &absmod::AbsElem, f: u32| e.items.iter().any(|x| x.k == "func" && x.r == f as i32);
+    reffed
+        .into_iter()
+        .filter(|f| {
+            let exported = m.exports.iter().any(|e| e.kind == "func" && e.target == *f);
+            let in_global = m.globals.iter().any(|g| g.init.k == "func" && g.init.r == *f as i32);
+            let in_kept = m.elems.iter().any(|e| e.mode != "passive" && in_items(e, *f));
+            let in_passive = m.elems.iter().any(|e| e.mode == "passive" && in_items(e, *f));
+            !exported && !in_global && !in_kept && in_passive
+        })
+        .collect()
+}
+
+/// C06/C07: parse ; gc ; emit, with the facts about a second gc run.
+pub fn gc_case(inp: &Input, cfg: &Cfg) -> Value {
+    let mut inm = absmod::project(&inp.bytes).unwrap_or_default();
+    let extra = pick_roots(inp, &inm);
+    let decl_only_passive = declared_only_by_passive(&inm);
+    let rt = run::gc_roundtrip(&inp.bytes, cfg, 1, &extra);
+    // reachability on the input side is over the operators that survive elision
+    for f in inm.funcs.iter_mut() {
+        f.refs = f.live_refs.clone();
+    }
+    let inm = strip_ops(inm);
+    let (outm, out_valid, out_error) = if rt.outcome == "ok" {
+        let v = absmod::validate(&rt.out);
+        (absmod::project(&rt.out).map(strip_ops).unwrap_or_default(), v.is_ok(), v.err().unwrap_or_default())
+    } else {
+        (AbsModule::default(), false, String::new())
+    };
+    let rt2 = run::gc_roundtrip(&inp.bytes, cfg, 2, &extra);
+    let gc2_same = rt2.outcome == rt.outcome && rt2.out == rt.out;
+    let gc2_detail = if gc2_same { String::new() } else { format!("{} len {} vs {}", rt2.outcome, rt.out.len(), rt2.out.len()) };
+    json!({
+        "id": inp.id, "source": inp.source, "outcome": rt.outcome,
+        "in_valid": true, "out_valid": out_valid, "out_error": run::short(&out_error),
+        "inm": inm, "outm": outm, "sigma": rt.sigma, "extra_roots": extra,
+        "gc2_same": gc2_same, "gc2_detail": gc2_detail, "decl_only_passive": decl_only_passive,
     })
 }
